@@ -218,6 +218,22 @@ def run(ctx, rep):
                     continue
                 raise AnchorError(f"{p} not found")
             fam = [F] + prog.closures_of(F)
+            # named (nested) fns of the same backend module used as / called from the filter closure (`fn file_id(r, tpe)`)
+            modp = re.sub(r"^<([\w:]+)::\w+ as .*$", r"\1", F.path)       # e.g. rustic_backend::local
+            for f_ in list(fam):
+                for _, t_ in f_.calls():
+                    if "callee" not in t_:
+                        continue
+                    cands = [callee(t_)]
+                    for a_ in t_.get("args", []):
+                        if a_[0] == "k" and isinstance(a_[1], dict) and "fn" in a_[1]:
+                            cands.append((a_[1]["fn"].get("resolved") or {}).get("path") or a_[1]["fn"]["callee"])
+                    for c_ in cands:
+                        hb_ = prog.bodies.get(c_)
+                        if hb_ is None or hb_ in fam:
+                            continue
+                        if c_.startswith(F.path + "::") or (c_.startswith(modp + "::") and c_.count("::") == modp.count("::") + 1):
+                            fam += [hb_] + prog.closures_of(hb_)
             parse = [(f, bb) for f in fam for bb, t in f.calls() if "callee" in t and callee(t).endswith("rustic_core::id::Id::parse_some")]
             isfile = [(f, bb) for f in fam for bb, t in f.calls() if "callee" in t and re.search(r"::is_file$", callee(t))]
             short = p.rsplit("::", 1)[-1]
